@@ -83,8 +83,8 @@ def e_configs(ctx):
         ('v2-core2', dict(never, proto=2, core=2, hosts=2, kinds=KINDS2), full),
         # a second switch after the first one completed: retry of the same target, another target, back again
         ('v4-2sw-same', dict(two, switches=('ks2', 'ks2')), full),
-        ('v4-2sw-other-setks', dict(two, ks0='ks1', entry='set_keyspace', switches=('ks2', 'ks3')), full),
-        ('v4-2sw-back', dict(two, ks0='ks1', switches=('ks2', 'ks1')), full),
+        ('v4-2sw-other-setks', dict(two, ks0='ks1', entry='set_keyspace', switches=('ks2', 'ks3'), kinds=KINDS2), full),
+        ('v4-2sw-back', dict(two, ks0='ks1', switches=('ks2', 'ks1'), kinds=KINDS2), full),
         ('v2-core1-2sw-same', dict(two, proto=2, core=1, switches=('ks2', 'ks2'), kinds=KINDS2), full),
         # a connection marked for replacement (orphaned-stream threshold) while it stays open
         ('v4-orphan', dict(two, kinds=KINDS2, max_orphan=1), full),
@@ -146,7 +146,10 @@ def dedup_differential(ctx):
     """Guard against a too-coarse canonical state: with dedup switched off (state = history) the same fingerprints
     and the same observed outcomes must be reached at the same depth."""
     never = dict(hosts=3, proto=4, ks0=None, convict=False, entry='use', timeout=None, kinds=KINDS2, max_defunct=1)
-    for name, params, depth in (('v4-never', never, 6), ('v2-core1', dict(never, proto=2, core=1, hosts=2), 7)):
+    for name, params, depth in (('v4-never', never, 6), ('v2-core1', dict(never, proto=2, core=1, hosts=2), 7),
+                                ('v4-2sw-same', dict(never, hosts=2, switches=('ks2', 'ks2')), 10),
+                                ('v4-2sw-back', dict(never, hosts=2, ks0='ks1', switches=('ks2', 'ks1')), 9),
+                                ('v4-orphan', dict(never, hosts=2, max_orphan=1), 8)):
         seen = []
         for nodedup in (False, True):
             sub = Ctx(ctx.prop, tier=ctx.tier, seed=ctx.seed, silent=True)
